@@ -1,5 +1,6 @@
 import Nsq.Model.Aggregate
 import Nsq.Proofs.AggregateSums
+import Nsq.Proofs.AggregateDecode
 /-!
 The channel map GetNSQDStats builds is exactly the per-node channel reports it returns, grouped by
 key (channel name, or "topic:channel" when no topic is selected): one entry per key, made by
@@ -282,11 +283,12 @@ theorem nsqdStatsGo_grouped (fx : Fixes) (w : World) (sel selc : String) (incl :
     split at h
     · exact ih ts ts' m m' (f + 1) f' hg h
     · rename_i ans _
-      cases ht : topicsOfNode fx p sel ans m with
+      cases ht : nodeAnswer fx p sel ans m with
       | error e => simp [ht] at h
       | ok r =>
         obtain ⟨tns, m1⟩ := r
         simp only [ht] at h
+        have ht := AggregateDecode.nodeAnswer_ok ht
         have hg1 := topicsOfNode_grouped fx p sel ans m m1 (chansOfTopics ts) tns hg ht
         have hg2 : Grouped sel m1 (chansOfTopics (ts ++ tns)) := by
           simpa [chansOfTopics, List.flatMap_append] using hg1
